@@ -1237,7 +1237,7 @@ Proof.
             <- (blevelorder_agree ft st fb sb m Hf Hs), <- (bzigzag_agree ft st fb sb m Hf Hs),
             <- (blevelordergroup_agree ft st fb sb m Hf Hs), <- (bzigzaggroup_agree ft st fb sb m Hf Hs).
     rewrite !nums_img, !map_map.
-    rewrite (map_ext (fun x => nums (map img x)) bnums nums_img).
+    rewrite !(map_ext (fun x => nums (map img x)) bnums nums_img).
     reflexivity.
   - rewrite (binorder_spec fb m). apply same_bseq_bnums. intros x Hx.
     unfold spec_inorder in Hx. apply filter_In in Hx as [Hx _]. apply in_map_iff in Hx as [p [<- Hp]].
@@ -1245,3 +1245,297 @@ Proof.
     pose proof (tags_distinct_tagged _ HT _ Hp) as Tg. unfold tagged in Tg.
     destruct (snd p) as [g l r]. cbn [img ttag btag] in *. destruct g; [discriminate|discriminate Tg].
 Qed.
+
+(* ------------------------------------------------------------------------------------------ *)
+(* a filter condition yields exactly the subsequence of nodes satisfying it *)
+
+Lemma filter_true {A} (l : list A) : filter (fun _ => true) l = l.
+Proof. induction l as [|x l IH]; [reflexivity|]. cbn [filter]. rewrite IH. reflexivity. Qed.
+
+Definition all_nodes : tree -> bool := fun _ => true.
+Definition no_stop : tree -> bool := fun _ => false.
+
+Section FilterLaw.
+  Variables (filt stop : tree -> bool) (m d : nat) (t : tree).
+
+  Lemma spec_post_alt :
+    spec_post filt stop m d t = filter filt (map snd (filter (visible stop m d) (routes_post t))).
+  Proof. unfold spec_post. rewrite filter_map_swap, filter_filter. reflexivity. Qed.
+
+  Theorem filter_subsequence :
+    preorder filt stop m d t = filter filt (preorder all_nodes stop m d t)
+    /\ postorder filt stop m d t = filter filt (postorder all_nodes stop m d t)
+    /\ levelorder filt stop m d t = filter filt (levelorder all_nodes stop m d t)
+    /\ zigzag filt stop m d t = filter filt (zigzag all_nodes stop m d t)
+    /\ levelordergroup filt stop m d t = map (filter filt) (levelordergroup all_nodes stop m d t)
+    /\ zigzaggroup filt stop m d t = map (filter filt) (zigzaggroup all_nodes stop m d t).
+  Proof.
+    rewrite !preorder_spec, !postorder_spec, !levelorder_spec, !zigzag_spec,
+            !levelordergroup_spec, !zigzaggroup_spec.
+    repeat split.
+    - rewrite !spec_pre_alt. unfold all_nodes. rewrite filter_true. reflexivity.
+    - rewrite spec_post_alt. unfold spec_post, wanted, all_nodes. f_equal. f_equal.
+      apply filter_ext. intros r. rewrite andb_true_r. reflexivity.
+    - unfold spec_levelorder, all_nodes. rewrite filter_true. reflexivity.
+    - unfold spec_zigzag, all_nodes. rewrite filter_true. reflexivity.
+    - unfold spec_levelordergroup, all_nodes. rewrite map_map. apply map_ext. intros k.
+      rewrite filter_true. reflexivity.
+    - unfold spec_zigzaggroup, all_nodes. rewrite map_map. apply map_ext. intros k.
+      rewrite filter_true. reflexivity.
+  Qed.
+End FilterLaw.
+
+(* ------------------------------------------------------------------------------------------ *)
+(* without conditions the iterators are the textbook traversals of Base/Rose.v *)
+
+Lemma routes_post_snd t : map snd (routes_post t) = post t.
+Proof.
+  induction t as [g n a ks IH] using tree_ind'. cbn [routes_post post]. rewrite map_app. cbn [map snd].
+  f_equal. rewrite map_map.
+  rewrite (map_ext (fun r => snd (under (T g n a ks) r)) snd) by (intros [x y]; reflexivity).
+  rewrite map_flat_map. apply flat_map_Forall_ext. exact IH.
+Qed.
+
+Lemma visible_trivial d r : visible no_stop 0 d r = true.
+Proof.
+  unfold visible, no_stop, within. cbn [negb Nat.eqb orb andb].
+  rewrite andb_true_r, andb_true_r. apply forallb_forall. reflexivity.
+Qed.
+
+Lemma wanted_trivial d l : filter (wanted all_nodes no_stop 0 d) l = l.
+Proof.
+  rewrite (filter_ext _ (fun _ => true)); [apply filter_true|].
+  intros r. unfold wanted. rewrite visible_trivial. reflexivity.
+Qed.
+
+Lemma vlevel_trivial k : forall d t, vlevel no_stop 0 k d t = level k t.
+Proof.
+  induction k as [|k IH]; intros d t; [reflexivity|].
+  cbn [vlevel level]. unfold Iter.gate, no_stop, depth_ok. cbn [Nat.eqb orb negb andb].
+  apply flat_map_ext. intros x. apply IH.
+Qed.
+
+Theorem unconditioned d t :
+  preorder all_nodes no_stop 0 d t = pre t
+  /\ postorder all_nodes no_stop 0 d t = post t
+  /\ levelorder all_nodes no_stop 0 d t = flat_map (fun k => level k t) (seq 0 (height t))
+  /\ zigzag all_nodes no_stop 0 d t = flat_map (fun k => zig k (level k t)) (seq 0 (height t)).
+Proof.
+  rewrite preorder_spec, postorder_spec, levelorder_spec, zigzag_spec. repeat split.
+  - unfold spec_pre. rewrite wanted_trivial. apply routes_snd.
+  - unfold spec_post. rewrite wanted_trivial. apply routes_post_snd.
+  - unfold spec_levelorder, all_nodes. rewrite filter_true. apply flat_map_ext. intros k.
+    rewrite <- vlevel_routes. apply vlevel_trivial.
+  - unfold spec_zigzag, all_nodes. rewrite filter_true. apply flat_map_ext. intros k.
+    rewrite <- vlevel_routes, vlevel_trivial. reflexivity.
+Qed.
+
+(* ------------------------------------------------------------------------------------------ *)
+(* order laws, stated on the yielded sequences *)
+
+Definition before {A} (l : list A) (x y : A) : Prop := exists l1 l2 l3, l = l1 ++ x :: l2 ++ y :: l3.
+
+Lemma before_cons {A} (z x y : A) l : before l x y -> before (z :: l) x y.
+Proof. intros [l1 [l2 [l3 ->]]]. exists (z :: l1), l2, l3. reflexivity. Qed.
+
+Lemma before_head {A} (x y : A) l : In y l -> before (x :: l) x y.
+Proof. intros H. apply in_split in H as [l2 [l3 ->]]. exists [], l2, l3. reflexivity. Qed.
+
+Lemma before_app_l {A} (x y : A) l l' : before l x y -> before (l ++ l') x y.
+Proof.
+  intros [l1 [l2 [l3 ->]]]. exists l1, l2, (l3 ++ l'). repeat (rewrite <- ?app_assoc; cbn [app]). reflexivity.
+Qed.
+
+Lemma before_app_r {A} (x y : A) l l' : before l' x y -> before (l ++ l') x y.
+Proof. intros [l1 [l2 [l3 ->]]]. exists (l ++ l1), l2, l3. rewrite <- app_assoc. reflexivity. Qed.
+
+Lemma before_app_lr {A} (x y : A) l l' : In x l -> In y l' -> before (l ++ l') x y.
+Proof.
+  intros Hx Hy. apply in_split in Hx as [a1 [a2 ->]]. apply in_split in Hy as [b1 [b2 ->]].
+  exists a1, (a2 ++ b1), b2. repeat (rewrite <- ?app_assoc; cbn [app]). reflexivity.
+Qed.
+
+Lemma before_map {A B} (f : A -> B) (x y : A) l : before l x y -> before (map f l) (f x) (f y).
+Proof.
+  intros [l1 [l2 [l3 ->]]]. exists (map f l1), (map f l2), (map f l3).
+  rewrite !map_app. cbn [map]. rewrite !map_app. reflexivity.
+Qed.
+
+Lemma before_filter {A} (p : A -> bool) (x y : A) l :
+  before l x y -> p x = true -> p y = true -> before (filter p l) x y.
+Proof.
+  intros [l1 [l2 [l3 ->]]] Hx Hy. exists (filter p l1), (filter p l2), (filter p l3).
+  rewrite filter_app. cbn [filter]. rewrite Hx, filter_app. cbn [filter]. rewrite Hy. reflexivity.
+Qed.
+
+Lemma before_flat_map {A B} (g : A -> list B) (x y : B) k ks :
+  In k ks -> before (g k) x y -> before (flat_map g ks) x y.
+Proof.
+  intros Hk H. apply in_split in Hk as [k1 [k2 ->]]. rewrite flat_map_app. cbn [flat_map].
+  apply before_app_r, before_app_l. exact H.
+Qed.
+
+Lemma routes_in_cases g n a ks r :
+  In r (routes (T g n a ks)) ->
+  r = ([], T g n a ks) \/ exists k r', In k ks /\ In r' (routes k) /\ r = under (T g n a ks) r'.
+Proof.
+  cbn [routes]. intros [<-|H]; [left; reflexivity|right].
+  apply in_map_iff in H as [r' [<- H]]. apply in_flat_map in H as [k [Hk Hr]].
+  exists k, r'. repeat split; assumption.
+Qed.
+
+Lemma routes_post_in_cases g n a ks r :
+  In r (routes_post (T g n a ks)) ->
+  r = ([], T g n a ks) \/ exists k r', In k ks /\ In r' (routes_post k) /\ r = under (T g n a ks) r'.
+Proof.
+  cbn [routes_post]. intros H. apply in_app_or in H as [H|[<-|[]]]; [right|left; reflexivity].
+  apply in_map_iff in H as [r' [<- H]]. apply in_flat_map in H as [k [Hk Hr]].
+  exists k, r'. repeat split; assumption.
+Qed.
+
+(* an ancestor's route comes before (pre-order) / after (post-order) the route of a descendant *)
+Lemma routes_anc_before t : forall a1 p a2 n,
+  In (a1 ++ p :: a2, n) (routes t) -> before (routes t) (a1, p) (a1 ++ p :: a2, n).
+Proof.
+  induction t as [g n0 a ks IH] using tree_ind'. intros a1 p a2 n H.
+  pose proof H as H0. apply routes_in_cases in H as [E|[k [r' [Hk [Hr E]]]]].
+  - destruct a1; discriminate E.
+  - destruct r' as [a' n']. unfold under in E. cbn [fst snd] in E. inversion E as [[E1 E2]]. subst n'.
+    destruct a1 as [|x a1].
+    + cbn [app] in E1. injection E1 as Ep Ea. subst p a'. cbn [app routes]. apply before_head.
+      apply in_map_iff. exists (a2, n). split; [reflexivity|]. apply in_flat_map. exists k. split; assumption.
+    + cbn [app] in E1. injection E1 as Ex Ea. subst x a'. cbn [routes]. apply before_cons.
+      change (T g n0 a ks :: a1, p) with (under (T g n0 a ks) (a1, p)).
+      change ((T g n0 a ks :: a1) ++ p :: a2, n) with (under (T g n0 a ks) (a1 ++ p :: a2, n)).
+      apply before_map. apply (before_flat_map routes _ _ k ks Hk).
+      rewrite Forall_forall in IH. apply (IH k Hk). exact Hr.
+Qed.
+
+Lemma routes_post_anc_after t : forall a1 p a2 n,
+  In (a1 ++ p :: a2, n) (routes_post t) -> before (routes_post t) (a1 ++ p :: a2, n) (a1, p).
+Proof.
+  induction t as [g n0 a ks IH] using tree_ind'. intros a1 p a2 n H.
+  pose proof H as H0. apply routes_post_in_cases in H as [E|[k [r' [Hk [Hr E]]]]].
+  - destruct a1; discriminate E.
+  - destruct r' as [a' n']. unfold under in E. cbn [fst snd] in E. inversion E as [[E1 E2]]. subst n'.
+    destruct a1 as [|x a1].
+    + cbn [app] in E1. injection E1 as Ep Ea. subst p a'. cbn [app routes_post]. apply before_app_lr; [|left; reflexivity].
+      apply in_map_iff. exists (a2, n). split; [reflexivity|]. apply in_flat_map. exists k. split; assumption.
+    + cbn [app] in E1. injection E1 as Ex Ea. subst x a'. cbn [routes_post]. apply before_app_l.
+      change (T g n0 a ks :: a1, p) with (under (T g n0 a ks) (a1, p)).
+      change ((T g n0 a ks :: a1) ++ p :: a2, n) with (under (T g n0 a ks) (a1 ++ p :: a2, n)).
+      apply before_map. apply (before_flat_map routes_post _ _ k ks Hk).
+      rewrite Forall_forall in IH. apply (IH k Hk). exact Hr.
+Qed.
+
+(* subtrees of an earlier sibling come before subtrees of a later sibling, in both orders *)
+Lemma routes_siblings t : forall a p l1 k1 l2 k2 l3 r1 r2,
+  In (a, p) (routes t) -> tkids p = l1 ++ k1 :: l2 ++ k2 :: l3 ->
+  In r1 (routes k1) -> In r2 (routes k2) ->
+  before (routes t) (a ++ p :: fst r1, snd r1) (a ++ p :: fst r2, snd r2).
+Proof.
+  induction t as [g n0 a0 ks IH] using tree_ind'. intros a p l1 k1 l2 k2 l3 r1 r2 H Hk H1 H2.
+  apply routes_in_cases in H as [E|[k [r' [Hin [Hr E]]]]].
+  - inversion E; subst. cbn [tkids] in Hk. subst ks. cbn [app routes]. apply before_cons.
+    change (T g n0 a0 (l1 ++ k1 :: l2 ++ k2 :: l3) :: fst r1, snd r1) with (under (T g n0 a0 (l1 ++ k1 :: l2 ++ k2 :: l3)) r1).
+    change (T g n0 a0 (l1 ++ k1 :: l2 ++ k2 :: l3) :: fst r2, snd r2) with (under (T g n0 a0 (l1 ++ k1 :: l2 ++ k2 :: l3)) r2).
+    destruct r1 as [b1 n1], r2 as [b2 n2]. cbn [fst snd].
+    apply (before_map (under _) (b1, n1) (b2, n2)).
+    rewrite flat_map_app. apply before_app_r. cbn [flat_map]. apply before_app_lr; [exact H1|].
+    rewrite flat_map_app. apply in_or_app. right. cbn [flat_map]. apply in_or_app. left. exact H2.
+  - destruct r' as [a' n']. unfold under in E. cbn [fst snd] in E. inversion E; subst.
+    cbn [routes]. apply before_cons.
+    change ((T g n0 a0 ks :: a') ++ n' :: fst r1, snd r1) with (under (T g n0 a0 ks) (a' ++ n' :: fst r1, snd r1)).
+    change ((T g n0 a0 ks :: a') ++ n' :: fst r2, snd r2) with (under (T g n0 a0 ks) (a' ++ n' :: fst r2, snd r2)).
+    apply before_map. apply (before_flat_map routes _ _ k ks Hin).
+    rewrite Forall_forall in IH. apply (IH k Hin a' n' l1 k1 l2 k2 l3 r1 r2 Hr Hk H1 H2).
+Qed.
+
+Lemma routes_post_siblings t : forall a p l1 k1 l2 k2 l3 r1 r2,
+  In (a, p) (routes_post t) -> tkids p = l1 ++ k1 :: l2 ++ k2 :: l3 ->
+  In r1 (routes_post k1) -> In r2 (routes_post k2) ->
+  before (routes_post t) (a ++ p :: fst r1, snd r1) (a ++ p :: fst r2, snd r2).
+Proof.
+  induction t as [g n0 a0 ks IH] using tree_ind'. intros a p l1 k1 l2 k2 l3 r1 r2 H Hk H1 H2.
+  apply routes_post_in_cases in H as [E|[k [r' [Hin [Hr E]]]]].
+  - inversion E; subst. cbn [tkids] in Hk. subst ks. cbn [app routes_post]. apply before_app_l.
+    change (T g n0 a0 (l1 ++ k1 :: l2 ++ k2 :: l3) :: fst r1, snd r1) with (under (T g n0 a0 (l1 ++ k1 :: l2 ++ k2 :: l3)) r1).
+    change (T g n0 a0 (l1 ++ k1 :: l2 ++ k2 :: l3) :: fst r2, snd r2) with (under (T g n0 a0 (l1 ++ k1 :: l2 ++ k2 :: l3)) r2).
+    destruct r1 as [b1 n1], r2 as [b2 n2]. cbn [fst snd].
+    apply (before_map (under _) (b1, n1) (b2, n2)).
+    rewrite flat_map_app. apply before_app_r. cbn [flat_map]. apply before_app_lr; [exact H1|].
+    rewrite flat_map_app. apply in_or_app. right. cbn [flat_map]. apply in_or_app. left. exact H2.
+  - destruct r' as [a' n']. unfold under in E. cbn [fst snd] in E. inversion E; subst.
+    cbn [routes_post]. apply before_app_l.
+    change ((T g n0 a0 ks :: a') ++ n' :: fst r1, snd r1) with (under (T g n0 a0 ks) (a' ++ n' :: fst r1, snd r1)).
+    change ((T g n0 a0 ks :: a') ++ n' :: fst r2, snd r2) with (under (T g n0 a0 ks) (a' ++ n' :: fst r2, snd r2)).
+    apply before_map. apply (before_flat_map routes_post _ _ k ks Hin).
+    rewrite Forall_forall in IH. apply (IH k Hin a' n' l1 k1 l2 k2 l3 r1 r2 Hr Hk H1 H2).
+Qed.
+
+Section OrderLaws.
+  Variables (filt stop : tree -> bool) (m d : nat) (t : tree).
+
+  Lemma wanted_prefix a1 p a2 n :
+    wanted filt stop m d (a1 ++ p :: a2, n) = true -> filt p = true ->
+    wanted filt stop m d (a1, p) = true.
+  Proof.
+    unfold wanted, visible, rlevel. cbn [fst snd]. intros H Hp.
+    apply andb_true_iff in H as [H _]. apply andb_true_iff in H as [H Hw].
+    apply andb_true_iff in H as [H _]. rewrite forallb_app in H. apply andb_true_iff in H as [Ha Hb].
+    cbn [forallb] in Hb. apply andb_true_iff in Hb as [Hb _].
+    rewrite Ha, Hb, Hp. cbn [andb]. rewrite andb_true_r.
+    rewrite within_depth_ok in *. apply (depth_ok_mono m _ (d + length (a1 ++ p :: a2))); [|exact Hw].
+    rewrite app_length. lia.
+  Qed.
+
+  (* pre-order: a yielded node comes before every yielded descendant *)
+  Theorem parent_before_descendants a1 p a2 n :
+    In (a1 ++ p :: a2, n) (routes t) ->
+    wanted filt stop m d (a1 ++ p :: a2, n) = true -> filt p = true ->
+    before (preorder filt stop m d t) p n.
+  Proof.
+    intros Hin Hw Hp. rewrite preorder_spec. unfold spec_pre.
+    apply (before_map snd (a1, p) (a1 ++ p :: a2, n)).
+    apply before_filter; [apply routes_anc_before; exact Hin|apply (wanted_prefix a1 p a2 n Hw Hp)|exact Hw].
+  Qed.
+
+  (* post-order: every yielded descendant comes before the yielded node *)
+  Theorem descendants_before_parent a1 p a2 n :
+    In (a1 ++ p :: a2, n) (routes_post t) ->
+    wanted filt stop m d (a1 ++ p :: a2, n) = true -> filt p = true ->
+    before (postorder filt stop m d t) n p.
+  Proof.
+    intros Hin Hw Hp. rewrite postorder_spec. unfold spec_post.
+    apply (before_map snd (a1 ++ p :: a2, n) (a1, p)).
+    apply before_filter; [apply routes_post_anc_after; exact Hin|exact Hw|apply (wanted_prefix a1 p a2 n Hw Hp)].
+  Qed.
+
+  (* pre-order and post-order: the yielded nodes under an earlier child of p come before the
+     yielded nodes under a later child of p *)
+  Theorem sibling_subtrees_left_to_right a p l1 k1 l2 k2 l3 r1 r2 :
+    In (a, p) (routes t) -> tkids p = l1 ++ k1 :: l2 ++ k2 :: l3 ->
+    In r1 (routes k1) -> In r2 (routes k2) ->
+    wanted filt stop m d (a ++ p :: fst r1, snd r1) = true ->
+    wanted filt stop m d (a ++ p :: fst r2, snd r2) = true ->
+    before (preorder filt stop m d t) (snd r1) (snd r2).
+  Proof.
+    intros Hin Hk H1 H2 W1 W2. rewrite preorder_spec. unfold spec_pre.
+    apply (before_map snd (a ++ p :: fst r1, snd r1) (a ++ p :: fst r2, snd r2)).
+    apply before_filter; [|exact W1|exact W2].
+    apply (routes_siblings t a p l1 k1 l2 k2 l3 r1 r2 Hin Hk H1 H2).
+  Qed.
+
+  Theorem sibling_subtrees_left_to_right_post a p l1 k1 l2 k2 l3 r1 r2 :
+    In (a, p) (routes_post t) -> tkids p = l1 ++ k1 :: l2 ++ k2 :: l3 ->
+    In r1 (routes_post k1) -> In r2 (routes_post k2) ->
+    wanted filt stop m d (a ++ p :: fst r1, snd r1) = true ->
+    wanted filt stop m d (a ++ p :: fst r2, snd r2) = true ->
+    before (postorder filt stop m d t) (snd r1) (snd r2).
+  Proof.
+    intros Hin Hk H1 H2 W1 W2. rewrite postorder_spec. unfold spec_post.
+    apply (before_map snd (a ++ p :: fst r1, snd r1) (a ++ p :: fst r2, snd r2)).
+    apply before_filter; [|exact W1|exact W2].
+    apply (routes_post_siblings t a p l1 k1 l2 k2 l3 r1 r2 Hin Hk H1 H2).
+  Qed.
+End OrderLaws.
